@@ -471,6 +471,7 @@ func c15Layout(c *wk.Case) {
 		c.Inconclusive("canonical-layout-rejected", fmt.Sprintf("%q: %v %v", canon, err, pan))
 		return
 	}
+	c.Evals(6) // six layout variants of the program are parsed and compared
 	for v := 0; v < 6; v++ {
 		seps := make([]sepSpec, len(toks)-1)
 		for i := range seps {
